@@ -153,6 +153,8 @@ func TestReplay(t *testing.T) {
 			} else {
 				roundMappingCap(t, c)
 			}
+		case "client-config-push":
+			roundClientConfig(t, c)
 		case "mapping-index":
 			p := &vkit.Picks{List: c.Picks}
 			reportIndex(t, c, runIndexProg(c, p.Choose))
